@@ -26,6 +26,11 @@ def run(ctx):
     if ctx.tier == 'thorough':
         ctx.harness(['p_nested2'])
         L.nested2_sweep(ctx, ('panic', 'hang'))
+    # the operations as the info-carrying iterators call them (store in the handler, load in the consumer), also with a burst
+    # longer than the buffer: a delivery at every instruction boundary of the consumer; nobody panics, nobody hangs
+    import ls_iter
+    if ctx.harness(['p_nested_iter']):
+        ls_iter.instr_sweep(ctx, ('CRASH', 'BLOCKED'), configs=[('r', 'p', 's'), ('r', 'p', 'sssss'), ('r', 'w', 'ssssss'), ('r', 'f', 'ssssst')], key='instruction_sweep_through_exfiltrator')
     L.ra_search(ctx, 1500 if ctx.tier == 'quick' else 60000)
     ctx.coverage['rule_nested'] = ('instruction-level sweep (trap flag): send/recv interrupted after every instruction by a handler running '
                                    'send/recv to completion, fill 0-5; outcomes (returns, drained values, drop counts, panic, hang) against the '
@@ -37,4 +42,9 @@ def run(ctx):
 
 
 def replay(ctx, path):
+    import json
+    case = json.load(open(path))
+    if case.get('case', {}).get('instr_sweep'):
+        import ls_iter
+        return ls_iter.instr_replay(ctx, case['case'], ('CRASH', 'BLOCKED'))
     return L.replay_case(ctx, path, [L.mon_c08])
